@@ -349,7 +349,7 @@ def main():
     variants = P.get("variants", [""])
     if tier == "quick" and len(variants) > 1:
         variants = [variants[0], variants[1 + seed % (len(variants) - 1)]]
-    all_r = []; sums = []; harness_notes = []; env_error = False
+    all_r = []; sums = []; harness_notes = []; env_error = False; faults_fired = {}
     timeout = P.get("timeout", {}).get(tier, 1500 if tier == "quick" else 7200)
     for fam in fams:
       for variant in variants:
@@ -395,8 +395,10 @@ def main():
                 for y in r: y["variant"] = variant; y["bin"] = binp
                 all_r += r; sums.append(s)
                 m = re.search(r"alloc_faults_fired=(\d+)", x["herr"])
-                if m and int(m.group(1)): harness_notes.append("alloc faults fired: " + m.group(1))
+                if m and int(m.group(1)): faults_fired[fam] = faults_fired.get(fam, 0) + int(m.group(1))
     tot = merge_summaries(sums)
+    for f_, n_ in sorted(faults_fired.items()):
+        harness_notes.append("injected allocation faults that fired, family %s: %d" % (f_, n_))
 
     # 5. classify
     # DESIGN section 6: a timed-out case is re-run alone before it is reported (a loaded machine can stall a worker for
